@@ -73,6 +73,9 @@ Infer/Canon.vos Infer/Canon.vok Infer/Canon.required_vos: Infer/Canon.v Ir/Synta
 Infer/Closed.vo Infer/Closed.glob Infer/Closed.v.beautified Infer/Closed.required_vo: Infer/Closed.v Ir/Syntax.vo Ir/Fold.vo Infer/Table.vo Infer/Unify.vo Infer/Variance.vo
 Infer/Closed.vio: Infer/Closed.v Ir/Syntax.vio Ir/Fold.vio Infer/Table.vio Infer/Unify.vio Infer/Variance.vio
 Infer/Closed.vos Infer/Closed.vok Infer/Closed.required_vos: Infer/Closed.v Ir/Syntax.vos Ir/Fold.vos Infer/Table.vos Infer/Unify.vos Infer/Variance.vos
+Infer/ClosedU.vo Infer/ClosedU.glob Infer/ClosedU.v.beautified Infer/ClosedU.required_vo: Infer/ClosedU.v Ir/Syntax.vo Ir/Fold.vo Infer/Table.vo Infer/Unify.vo Infer/Variance.vo Infer/Closed.vo Infer/Sym.vo Infer/Sound.vo
+Infer/ClosedU.vio: Infer/ClosedU.v Ir/Syntax.vio Ir/Fold.vio Infer/Table.vio Infer/Unify.vio Infer/Variance.vio Infer/Closed.vio Infer/Sym.vio Infer/Sound.vio
+Infer/ClosedU.vos Infer/ClosedU.vok Infer/ClosedU.required_vos: Infer/ClosedU.v Ir/Syntax.vos Ir/Fold.vos Infer/Table.vos Infer/Unify.vos Infer/Variance.vos Infer/Closed.vos Infer/Sym.vos Infer/Sound.vos
 Infer/Complete.vo Infer/Complete.glob Infer/Complete.v.beautified Infer/Complete.required_vo: Infer/Complete.v Ir/Syntax.vo Ir/Fold.vo Infer/Table.vo Infer/Unify.vo Infer/Closed.vo Infer/Sym.vo Infer/Sound.vo
 Infer/Complete.vio: Infer/Complete.v Ir/Syntax.vio Ir/Fold.vio Infer/Table.vio Infer/Unify.vio Infer/Closed.vio Infer/Sym.vio Infer/Sound.vio
 Infer/Complete.vos Infer/Complete.vok Infer/Complete.required_vos: Infer/Complete.v Ir/Syntax.vos Ir/Fold.vos Infer/Table.vos Infer/Unify.vos Infer/Closed.vos Infer/Sym.vos Infer/Sound.vos
@@ -82,6 +85,9 @@ Infer/Complete2.vos Infer/Complete2.vok Infer/Complete2.required_vos: Infer/Comp
 Infer/Complete3.vo Infer/Complete3.glob Infer/Complete3.v.beautified Infer/Complete3.required_vo: Infer/Complete3.v Ir/Syntax.vo Ir/Fold.vo Infer/Table.vo Infer/Unify.vo Infer/Closed.vo Infer/Sym.vo Infer/Sound.vo Infer/Complete.vo Infer/Complete2.vo
 Infer/Complete3.vio: Infer/Complete3.v Ir/Syntax.vio Ir/Fold.vio Infer/Table.vio Infer/Unify.vio Infer/Closed.vio Infer/Sym.vio Infer/Sound.vio Infer/Complete.vio Infer/Complete2.vio
 Infer/Complete3.vos Infer/Complete3.vok Infer/Complete3.required_vos: Infer/Complete3.v Ir/Syntax.vos Ir/Fold.vos Infer/Table.vos Infer/Unify.vos Infer/Closed.vos Infer/Sym.vos Infer/Sound.vos Infer/Complete.vos Infer/Complete2.vos
+Infer/Exact.vo Infer/Exact.glob Infer/Exact.v.beautified Infer/Exact.required_vo: Infer/Exact.v Ir/Syntax.vo Ir/Fold.vo Infer/Table.vo Infer/Unify.vo Infer/Closed.vo Infer/Sym.vo Infer/Sound.vo Infer/Complete.vo Infer/Complete2.vo Infer/Complete3.vo
+Infer/Exact.vio: Infer/Exact.v Ir/Syntax.vio Ir/Fold.vio Infer/Table.vio Infer/Unify.vio Infer/Closed.vio Infer/Sym.vio Infer/Sound.vio Infer/Complete.vio Infer/Complete2.vio Infer/Complete3.vio
+Infer/Exact.vos Infer/Exact.vok Infer/Exact.required_vos: Infer/Exact.v Ir/Syntax.vos Ir/Fold.vos Infer/Table.vos Infer/Unify.vos Infer/Closed.vos Infer/Sym.vos Infer/Sound.vos Infer/Complete.vos Infer/Complete2.vos Infer/Complete3.vos
 Infer/Exec.vo Infer/Exec.glob Infer/Exec.v.beautified Infer/Exec.required_vo: Infer/Exec.v Ir/Syntax.vo Ir/Fold.vo Infer/Canon.vo Infer/UCanon.vo Infer/Answer.vo Infer/Invert.vo
 Infer/Exec.vio: Infer/Exec.v Ir/Syntax.vio Ir/Fold.vio Infer/Canon.vio Infer/UCanon.vio Infer/Answer.vio Infer/Invert.vio
 Infer/Exec.vos Infer/Exec.vok Infer/Exec.required_vos: Infer/Exec.v Ir/Syntax.vos Ir/Fold.vos Infer/Canon.vos Infer/UCanon.vos Infer/Answer.vos Infer/Invert.vos
@@ -193,9 +199,9 @@ Props/C12.vos Props/C12.vok Props/C12.required_vos: Props/C12.v Engine/RecTheore
 Props/C13.vo Props/C13.glob Props/C13.v.beautified Props/C13.required_vo: Props/C13.v Logic/Perm.vo
 Props/C13.vio: Props/C13.v Logic/Perm.vio
 Props/C13.vos Props/C13.vok Props/C13.required_vos: Props/C13.v Logic/Perm.vos
-Props/C14.vo Props/C14.glob Props/C14.v.beautified Props/C14.required_vo: Props/C14.v Ir/Syntax.vo Infer/Table.vo Infer/Unify.vo Infer/Sound.vo Infer/Complete.vo Infer/Complete2.vo Infer/Complete3.vo
-Props/C14.vio: Props/C14.v Ir/Syntax.vio Infer/Table.vio Infer/Unify.vio Infer/Sound.vio Infer/Complete.vio Infer/Complete2.vio Infer/Complete3.vio
-Props/C14.vos Props/C14.vok Props/C14.required_vos: Props/C14.v Ir/Syntax.vos Infer/Table.vos Infer/Unify.vos Infer/Sound.vos Infer/Complete.vos Infer/Complete2.vos Infer/Complete3.vos
+Props/C14.vo Props/C14.glob Props/C14.v.beautified Props/C14.required_vo: Props/C14.v Ir/Syntax.vo Infer/Table.vo Infer/Unify.vo Infer/Sound.vo Infer/Complete.vo Infer/Complete2.vo Infer/Complete3.vo Infer/Exact.vo
+Props/C14.vio: Props/C14.v Ir/Syntax.vio Infer/Table.vio Infer/Unify.vio Infer/Sound.vio Infer/Complete.vio Infer/Complete2.vio Infer/Complete3.vio Infer/Exact.vio
+Props/C14.vos Props/C14.vok Props/C14.required_vos: Props/C14.v Ir/Syntax.vos Infer/Table.vos Infer/Unify.vos Infer/Sound.vos Infer/Complete.vos Infer/Complete2.vos Infer/Complete3.vos Infer/Exact.vos
 Props/C15.vo Props/C15.glob Props/C15.v.beautified Props/C15.required_vo: Props/C15.v Ir/Syntax.vo Infer/Table.vo Infer/Unify.vo Infer/Sym.vo
 Props/C15.vio: Props/C15.v Ir/Syntax.vio Infer/Table.vio Infer/Unify.vio Infer/Sym.vio
 Props/C15.vos Props/C15.vok Props/C15.required_vos: Props/C15.v Ir/Syntax.vos Infer/Table.vos Infer/Unify.vos Infer/Sym.vos
@@ -238,9 +244,9 @@ Props/C27.vos Props/C27.vok Props/C27.required_vos: Props/C27.v Mem/InPlace.vos
 Props/C28.vo Props/C28.glob Props/C28.v.beautified Props/C28.required_vo: Props/C28.v Ir/Syntax.vo Ir/Fold.vo Infer/Canon.vo Infer/Answer.vo Agg/Instance.vo Agg/AntiUnify.vo Infer/AnswerWf.vo
 Props/C28.vio: Props/C28.v Ir/Syntax.vio Ir/Fold.vio Infer/Canon.vio Infer/Answer.vio Agg/Instance.vio Agg/AntiUnify.vio Infer/AnswerWf.vio
 Props/C28.vos Props/C28.vok Props/C28.required_vos: Props/C28.v Ir/Syntax.vos Ir/Fold.vos Infer/Canon.vos Infer/Answer.vos Agg/Instance.vos Agg/AntiUnify.vos Infer/AnswerWf.vos
-Props/C29.vo Props/C29.glob Props/C29.v.beautified Props/C29.required_vo: Props/C29.v Ir/Syntax.vo Infer/Table.vo Infer/Unify.vo Infer/Variance.vo Infer/Closed.vo
-Props/C29.vio: Props/C29.v Ir/Syntax.vio Infer/Table.vio Infer/Unify.vio Infer/Variance.vio Infer/Closed.vio
-Props/C29.vos Props/C29.vok Props/C29.required_vos: Props/C29.v Ir/Syntax.vos Infer/Table.vos Infer/Unify.vos Infer/Variance.vos Infer/Closed.vos
+Props/C29.vo Props/C29.glob Props/C29.v.beautified Props/C29.required_vo: Props/C29.v Ir/Syntax.vo Infer/Table.vo Infer/Unify.vo Infer/Variance.vo Infer/Closed.vo Infer/ClosedU.vo
+Props/C29.vio: Props/C29.v Ir/Syntax.vio Infer/Table.vio Infer/Unify.vio Infer/Variance.vio Infer/Closed.vio Infer/ClosedU.vio
+Props/C29.vos Props/C29.vok Props/C29.required_vos: Props/C29.v Ir/Syntax.vos Infer/Table.vos Infer/Unify.vos Infer/Variance.vos Infer/Closed.vos Infer/ClosedU.vos
 Rules/Assoc.vo Rules/Assoc.glob Rules/Assoc.v.beautified Rules/Assoc.required_vo: Rules/Assoc.v Logic/Contract.vo Agg/Solution.vo
 Rules/Assoc.vio: Rules/Assoc.v Logic/Contract.vio Agg/Solution.vio
 Rules/Assoc.vos Rules/Assoc.vok Rules/Assoc.required_vos: Rules/Assoc.v Logic/Contract.vos Agg/Solution.vos
